@@ -3,6 +3,16 @@
 Mode D: every pair of equivalent specifications of the listed families x data sets (positive and mixed sign) x sizes x
 correlations x constraint values (either sign) x 3 parameter points; both members of a pair are built through the real API
 and compared: cost at the common points (1e-9), total covariance, constraint cost, and do_fit results (fit tolerance).
+
+Family 'sources-dtype': the forms of a constant source (python / numpy scalar, 0-d array, list, constant vector, diagonal /
+equicorrelated covariance matrix, correlation matrix + vector; absolute and relative; integer-valued given as int) x the DTYPE of
+the data they are attached to (histogram counts, IndexedContainer / XYContainer built with dtype=int, float controls) x level
+(container, HistFit / IndexedFit / XYFit both axes, shared source of a MultiFit, hist_fit / indexed_fit / xy_fit keywords) x
+sizes below and above 1; besides the pairwise comparison the pointwise uncertainty must be the specified number.
+Family 'dispatcher': kafe2.Fit(data, [model], **options) vs the class of the matching fit type called with the same arguments,
+for every data kind the dispatcher accepts (XYContainer, list, ndarray, IndexedContainer, HistContainer, UnbinnedContainer) x
+model function given / omitted (default model) x options (cost_function, minimizer, minimizer_kwargs, dynamic_error_algorithm,
+bin_evaluation, density, combinations): class, parameter names and defaults, option read-back, cost surface, fit result.
 """
 import os
 import shutil
@@ -20,7 +30,8 @@ RULE = (
     "cases = (family, pair of equivalent specifications, data variant, valuation); both are built on the real API; cost at 3 common "
     "parameter points and total covariance to 1e-9, constraint.cost(p) to 1e-12, do_fit values within 0.03 sigma / errors 5 % / cost "
     "1e-3; non-trivial = the two specifications use different API forms (always) and the quantity compared depends on the form "
-    "(non-zero uncertainty / constraint)"
+    "(non-zero uncertainty / constraint); sources-dtype additionally compares the pointwise uncertainties of both members with the number that was specified; "
+    "dispatcher compares class, parameter names / defaults and the public read-back of the options as well"
 )
 ASSUMPTIONS = [
     "a relative simple source with rho > 0 on mixed-sign data has no simple absolute equivalent; its matrix equivalent is used",
@@ -28,6 +39,10 @@ ASSUMPTIONS = [
     "wrapper keyword combinations: the explicit fit applies starting values, step sizes, limits, fixed parameters, constraints in the order of the wrapper documentation; "
     "a parameter fixed outside its own limits is compared between the two specifications only (no documented winner); with profile=True the returned fit object may have "
     "been moved by MINOS after the result values were read",
+    "an uncertainty is a real number whatever the dtype of the data it is attached to (integer histogram counts, containers built with dtype=int): "
+    "add_error(0.5) on integer data means 0.5, as the constant vector and the matrix forms do; a shared relative source of a MultiFit exists for the axes of xy fits with a common reference only",
+    "kafe2.Fit(data, model_function=None, minimizer=None, **kwargs) passes 'any further keyword arguments' to the fit class chosen by the type of data (docstring), with and without a model function; "
+    "an IndexedFit has no default model; the unbinned likelihood is minimised with iminuit only (scipy walks into sigma <= 0 from the common start)",
 ]
 N = 6
 
@@ -93,7 +108,7 @@ def compare(a, b):
             bad.append((k, _l(a[k]), "<missing>", "missing"))
             continue
         x, y = a[k], b[k]
-        if k.startswith("cost@") or k == "total_cov_mat" or k.startswith("ccost"):
+        if k.startswith("cost@") or k == "total_cov_mat" or k.startswith("ccost") or k.startswith("arr:"):
             if x is None or y is None:
                 if (x is None) != (y is None):
                     bad.append((k, _l(x), _l(y), "wrong-value"))
@@ -960,7 +975,305 @@ def fam_yaml(v):
     return cases
 
 
-FAMILIES = {"sources": fam_sources, "constraints": fam_constraints, "wrappers": fam_wrappers, "wrapper-combos": fam_wrapper_combos, "models": fam_models, "yaml": fam_yaml}
+# ---------------------------------------------------------------------------------------
+# the forms of a constant source (scalar / constant vector / matrix) x the dtype of the data they are attached to
+
+
+def int_counts(v):
+    """integer contents (histogram counts / integer measurements), no empty bin; integer abscissa"""
+    return np.array([3 + v, 7, 12 + v, 9, 5, 2 + v]), np.arange(1, N + 1)
+
+
+def imc(a=1.2, b=0.7):
+    return a * np.array([2.0, 6.0, 10.0, 8.0, 4.0, 1.0]) + b
+
+
+def fam_sources_dtype(v):
+    import kafe2
+
+    ds, val = data_sets(v)
+    counts, xs = int_counts(v)
+    centres = np.arange(N) + 0.5
+    entries = np.repeat(centres, counts)
+    rho, r = val.rho, 0.1 + val.ry
+    R = rho_matrix(N, rho)
+
+    def hist(dtype):
+        return kafe2.HistContainer(N, (0.0, float(N)), fill_data=entries, dtype=dtype)
+
+    # container kinds: (constructor, axis or None, the data the relative forms refer to)
+    kinds = {
+        "hist": (lambda: hist(int), None, counts),  # HistContainer: integer bin contents
+        "hist-float": (lambda: hist(float), None, counts),
+        "indexed-int": (lambda: kafe2.IndexedContainer(counts, dtype=int), None, counts),
+        "indexed-float": (lambda: kafe2.IndexedContainer(counts), None, counts),
+        "xy-int:y": (lambda: kafe2.XYContainer(xs, counts, dtype=int), "y", counts),
+        "xy-int:x": (lambda: kafe2.XYContainer(xs, counts, dtype=int), "x", xs),
+    }
+
+    def forms(refd):
+        """name -> (adders A, adders B, the pointwise uncertainty both describe)"""
+        refd = np.asarray(refd, dtype=float)
+        out = {}
+        for sz in (0.5, 2.5, float(val.ys)):
+            t = "%g" % sz
+            vec = np.full(N, sz)
+            out["scalar(%s)<->constant-vector" % t] = ([("add_error", dict(err_val=sz))], [("add_error", dict(err_val=vec))], vec)
+            out["np-scalar(%s)<->constant-vector" % t] = ([("add_error", dict(err_val=np.float64(sz)))], [("add_error", dict(err_val=vec))], vec)
+            out["0d-array(%s)<->constant-vector" % t] = ([("add_error", dict(err_val=np.array(sz)))], [("add_error", dict(err_val=vec))], vec)
+            out["list(%s)<->constant-vector" % t] = ([("add_error", dict(err_val=[sz] * N))], [("add_error", dict(err_val=vec))], vec)
+            out["scalar(%s)<->diag-cov" % t] = ([("add_error", dict(err_val=sz))], [("add_matrix_error", dict(err_matrix=np.diag(vec**2), matrix_type="cov"))], vec)
+            out["scalar-rho(%s)<->cov" % t] = ([("add_error", dict(err_val=sz, correlation=rho))], [("add_matrix_error", dict(err_matrix=sz**2 * R, matrix_type="cov"))], vec)
+            out["scalar-rho(%s)<->cor+err" % t] = ([("add_error", dict(err_val=sz, correlation=rho))], [("add_matrix_error", dict(err_matrix=R, matrix_type="cor", err_val=vec))], vec)
+        two = np.full(N, 2.0)
+        out["int-scalar<->float-scalar"] = ([("add_error", dict(err_val=2))], [("add_error", dict(err_val=2.0))], two)
+        out["int-vector<->float-vector"] = ([("add_error", dict(err_val=np.full(N, 2)))], [("add_error", dict(err_val=two))], two)
+        rvec = r * np.abs(refd)
+        out["rel-scalar<->rel-constant-vector"] = ([("add_error", dict(err_val=r, relative=True))], [("add_error", dict(err_val=np.full(N, r), relative=True))], rvec)
+        out["rel-scalar<->abs-vector"] = ([("add_error", dict(err_val=r, relative=True))], [("add_error", dict(err_val=rvec))], rvec)
+        out["rel-scalar-rho<->cov"] = ([("add_error", dict(err_val=r, relative=True, correlation=rho))], [("add_matrix_error", dict(err_matrix=np.outer(rvec, rvec) * R, matrix_type="cov"))], rvec)
+        out["rel-scalar<->rel-diag-cov"] = ([("add_error", dict(err_val=r, relative=True))], [("add_matrix_error", dict(err_matrix=np.diag(np.full(N, r**2)), matrix_type="cov", relative=True))], rvec)
+        return out
+
+    def apply(obj, axis, adders):
+        for meth, kw in adders:
+            if axis is None:
+                getattr(obj, meth)(**kw)
+            else:
+                getattr(obj, meth)(axis, **kw)
+
+    cases = []
+    # 1. on the containers themselves
+    for kname, (make, axis, refd) in kinds.items():
+        for pname, (A, B, expected) in forms(refd).items():
+
+            def mk(adders, make=make, axis=axis, expected=expected):
+                def build():
+                    with warnings.catch_warnings():
+                        warnings.simplefilter("ignore")
+                        c = make()
+                        apply(c, axis, adders)
+                        err = np.asarray(c.err if axis is None else getattr(c, axis + "_err"), dtype=float)
+                        cov = np.asarray(c.cov_mat if axis is None else getattr(c, axis + "_cov_mat"), dtype=float)
+                    return {"arr:err": err, "total_cov_mat": cov, "kw:pointwise-uncertainty": bool(err.shape == expected.shape and np.allclose(err, expected, rtol=1e-12, atol=0))}
+
+                return build
+
+            cases.append(("container/%s/%s" % (kname, pname), mk(A), mk(B)))
+
+    # 2. on fits of integer data
+    hpts = [[2.9, 1.6], [3.3, 1.2], [2.5, 1.9]]
+    fits = {
+        "hist-chi2": (lambda: kafe2.HistFit(hist(int), ref.normal_density, cost_function="chi2"), None, counts, hpts),
+        "indexed-int": (lambda: kafe2.IndexedFit(kafe2.IndexedContainer(counts, dtype=int), imc), None, counts, POINTS),
+        "xy-int:y": (lambda: kafe2.XYFit(kafe2.XYContainer(xs, counts, dtype=int), lm), "y", counts, POINTS),
+        "xy-int:x": (lambda: kafe2.XYFit(kafe2.XYContainer(xs, counts, dtype=int), lm), "x", xs, POINTS),
+    }
+    fit_pairs = ("scalar(0.5)<->constant-vector", "scalar(2.5)<->constant-vector", "np-scalar(2.5)<->constant-vector", "scalar-rho(2.5)<->cov", "rel-scalar<->rel-constant-vector", "rel-scalar<->abs-vector")
+    for kname, (make, axis, refd, pts) in fits.items():
+        table = forms(refd)
+        for pname in fit_pairs:
+            A, B, expected = table[pname]
+
+            def mk(adders, make=make, axis=axis, pts=pts, expected=expected, fit_it=pname in ("scalar(2.5)<->constant-vector", "rel-scalar<->abs-vector")):
+                def build():
+                    with warnings.catch_warnings():
+                        warnings.simplefilter("ignore")
+                        f = make()
+                        if axis == "x":
+                            f.add_error("y", np.full(N, 1.5))
+                        apply(f, axis, adders)
+                        err = np.asarray(f.data_error if axis is None else getattr(f, axis + "_data_error"), dtype=float)
+                        out = {"arr:data_error": err, "kw:pointwise-uncertainty": bool(np.allclose(err, expected, rtol=1e-12, atol=0))}
+                        out.update(fit_signature(f, points=pts, do_fit=fit_it))
+                    return out
+
+                return build
+
+            cases.append(("fit/%s/%s" % (kname, pname), mk(A), mk(B)))
+
+    # 3. an uncertainty shared by the members of a MultiFit
+    counts2 = counts[::-1] + 1
+    for kname, axis, members in (
+        ("xy-int", "y", lambda: [kafe2.XYFit(kafe2.XYContainer(xs, counts, dtype=int), lm), kafe2.XYFit(kafe2.XYContainer(xs + 1, counts, dtype=int), lm)]),  # the same y data: a shared relative uncertainty needs a common reference
+        ("hist-chi2", None, lambda: [kafe2.HistFit(hist(int), ref.normal_density, cost_function="chi2"), kafe2.HistFit(kafe2.HistContainer(N, (0.0, float(N)), fill_data=np.repeat(centres, counts2)), ref.normal_density, cost_function="chi2")]),
+        ("indexed-int", None, lambda: [kafe2.IndexedFit(kafe2.IndexedContainer(counts, dtype=int), imc), kafe2.IndexedFit(kafe2.IndexedContainer(counts2, dtype=int), imc)]),
+    ):
+        for pname, ea, eb in (("scalar(2.5)<->constant-vector", 2.5, np.full(N, 2.5)), ("scalar(0.5)<->constant-vector", 0.5, np.full(N, 0.5)), ("rel-scalar<->rel-constant-vector", r, np.full(N, r))):
+            if pname.startswith("rel") and axis is None:
+                continue  # a shared uncertainty relative to the data exists for the axes of xy fits only
+
+            def mk(err_val, members=members, axis=axis, relative=pname.startswith("rel")):
+                def build():
+                    with warnings.catch_warnings():
+                        warnings.simplefilter("ignore")
+                        m = kafe2.MultiFit(members())
+                        akw = {} if axis is None else dict(axis=axis)
+                        for k in (0, 1):
+                            m.add_error(np.full(N, 1.0 + 0.5 * k), fits=k, **akw)
+                        m.add_error(err_val, fits="all", relative=relative, **(dict(akw, reference="data") if relative else akw))
+                        return fit_signature(m, points=hpts if kname.startswith("hist") else POINTS, do_fit=False)
+
+                return build
+
+            cases.append(("multifit/%s/%s" % (kname, pname), mk(ea), mk(eb)))
+
+    # 4. through the wrappers
+    def wsig(res):
+        f = res["fit"]
+        out = {"fit:values": np.array(list(res["parameter_values"].values()), dtype=float), "fit:errors": np.array(list(res["parameter_errors"].values()), dtype=float)}
+        out["fit:cost"], out["fit:ndf"] = float(res["cost"]), int(res["ndf"])
+        tc = f.total_cov_mat
+        out["total_cov_mat"] = None if tc is None else np.asarray(tc, dtype=float)
+        return out
+
+    hkw = dict(n_bins=N, bin_range=(0.0, float(N)), save=False, report=False, profile=False)
+    wr = {
+        "hist_fit/error(2.5)": (lambda e: kafe2.hist_fit(ref.normal_density, entries, error=e, **hkw), 2.5, [2.5] * N),
+        "hist_fit/error(0.5)": (lambda e: kafe2.hist_fit(ref.normal_density, entries, error=e, **hkw), 0.5, [0.5] * N),
+        "hist_fit/error_rel-data": (lambda e: kafe2.hist_fit(ref.normal_density, entries, error_rel=e, errors_rel_to_model=False, **hkw), r, [r] * N),
+        "indexed_fit/error(2.5)": (lambda e: kafe2.indexed_fit(imc, counts, error=e, save=False, report=False, profile=False), 2.5, [2.5] * N),
+        "xy_fit/y_error(2.5)+x_error(0.25)": (lambda e: kafe2.xy_fit(lm, xs, counts, y_error=e[0], x_error=e[1], save=False, report=False, profile=False), (2.5, 0.25), ([2.5] * N, [0.25] * N)),
+    }
+    for wname, (call, ea, eb) in wr.items():
+
+        def mk(e, call=call):
+            def build():
+                with warnings.catch_warnings():
+                    warnings.simplefilter("ignore")
+                    return wsig(call(e))
+
+            return build
+
+        cases.append(("wrapper/%s/scalar<->constant-vector" % wname, mk(ea), mk(eb)))
+    return cases
+
+
+# ---------------------------------------------------------------------------------------
+# the generic dispatcher kafe2.Fit(data, [model], **options) vs the explicitly constructed fit of the matching class
+
+
+def fam_dispatcher(v):
+    import kafe2
+
+    ds, val = data_sets(v)
+    x, y = ds["pos"]
+    hpts = [[2.9, 1.6], [3.3, 1.2], [2.5, 1.9]]
+    lpts = [[1.0, 1.0], [1.3, 0.4], [0.8, 1.2]]
+
+    def xy_container():
+        c = kafe2.XYContainer(x, y)
+        c.add_error("y", val.ey)
+        return c
+
+    def indexed_container():
+        c = kafe2.IndexedContainer(y)
+        c.add_error(val.ey)
+        return c
+
+    def hist_container():
+        c = kafe2.HistContainer(5, (0.0, 6.0), fill_data=HIST_ENTRIES)
+        c.add_error(np.sqrt(np.maximum(c.data, 1.0)))
+        return c
+
+    # data kind -> (data maker, explicit class, model function (None: the default model of the fit type is part of the
+    # enumeration), parameter points, what is added after construction, options)
+    rel_model = lambda f: f.add_error("y", val.rm, relative=True, reference="model")  # noqa: E731
+    rel_model_i = lambda f: f.add_error(val.rm, relative=True, reference="model")  # noqa: E731
+    plain_y = lambda f: f.add_error("y", val.ey)  # noqa: E731
+    xy_options = {
+        "none": (dict(), None),
+        "cost=chi2_no_errors": (dict(cost_function="chi2_no_errors"), None),
+        "cost=nll_gaussian": (dict(cost_function="nll_gaussian"), None),
+        "minimizer=scipy": (dict(minimizer="scipy"), None),
+        "dynamic=iterative": (dict(dynamic_error_algorithm="iterative"), rel_model),
+        "dynamic=nonlinear": (dict(dynamic_error_algorithm="nonlinear"), rel_model),
+        "minimizer_kwargs": (dict(minimizer_kwargs=dict(tolerance=1e-3)), None),
+        "cost+dynamic+minimizer": (dict(cost_function="chi2_covariance", dynamic_error_algorithm="iterative", minimizer="scipy"), rel_model),
+    }
+    table = {
+        "xy-container": (xy_container, kafe2.XYFit, lm, POINTS, None, xy_options),
+        "xy-list": (lambda: [list(x), list(y)], kafe2.XYFit, lm, POINTS, plain_y, {k: xy_options[k] for k in ("none", "cost=chi2_no_errors", "dynamic=iterative")}),
+        "xy-ndarray": (lambda: np.array([x, y]), kafe2.XYFit, lm, POINTS, plain_y, {k: xy_options[k] for k in ("none", "cost=nll_gaussian", "minimizer=scipy")}),
+        "indexed": (
+            indexed_container,
+            kafe2.IndexedFit,
+            im,
+            POINTS,
+            None,
+            {
+                "none": (dict(), None),
+                "cost=chi2_no_errors": (dict(cost_function="chi2_no_errors"), None),
+                "minimizer=scipy": (dict(minimizer="scipy"), None),
+                "dynamic=iterative": (dict(dynamic_error_algorithm="iterative"), rel_model_i),
+            },
+        ),
+        "hist": (
+            hist_container,
+            kafe2.HistFit,
+            ref.normal_density,
+            hpts,
+            None,
+            {
+                "none": (dict(), None),
+                "cost=chi2": (dict(cost_function="chi2"), None),
+                "cost=gauss_approximation": (dict(cost_function="gauss_approximation"), None),
+                "bin_evaluation=rectangle": (dict(bin_evaluation="rectangle"), None),
+                "bin_evaluation=numerical": (dict(bin_evaluation="numerical"), None),
+                "density=False": (dict(density=False, cost_function="chi2_no_errors"), None),
+                "minimizer=scipy": (dict(minimizer="scipy"), None),
+                "dynamic=iterative": (dict(dynamic_error_algorithm="iterative", cost_function="chi2"), rel_model_i),
+                "cost+bin_evaluation+density": (dict(cost_function="chi2", bin_evaluation="trapezoid", density=True), None),
+            },
+        ),
+        "unbinned": (
+            lambda: kafe2.UnbinnedContainer(HIST_ENTRIES),
+            kafe2.UnbinnedFit,
+            ref.normal_density,
+            hpts,
+            None,
+            {"none": (dict(), None), "minimizer=iminuit": (dict(minimizer="iminuit"), None), "cost=nll": (dict(cost_function="nll"), None)},
+        ),
+    }
+
+    def readback(f, opts):
+        """what the options ask for, where a public attribute tells"""
+        out = {}
+        if "dynamic_error_algorithm" in opts:
+            out["kw:dynamic_error_algorithm"] = bool(f.dynamic_error_algorithm == opts["dynamic_error_algorithm"])
+        if "density" in opts:
+            out["kw:density"] = bool(f.density == opts["density"])
+        return out
+
+    cases = []
+    for dname, (data, cls, model, pts, after, options) in table.items():
+        for given in ("model", "default"):
+            if given == "default" and dname == "indexed":
+                continue  # an indexed fit has no default model
+            ppts = pts if given == "model" or dname in ("hist", "unbinned") else lpts
+            for oname, (opts, after2) in options.items():
+
+                def mk(how, data=data, cls=cls, model=model, given=given, opts=opts, after=after, after2=after2, ppts=ppts, fit_it=not (dname == "hist" and "density" in opts and not opts["density"])):
+                    def build():
+                        with warnings.catch_warnings():
+                            warnings.simplefilter("ignore")
+                            args = (data(),) + ((model,) if given == "model" else ())
+                            f = (kafe2.Fit if how == "Fit" else cls)(*args, **opts)
+                            for op in (after, after2):
+                                if op is not None:
+                                    op(f)
+                            out = {"kw:class": bool(type(f) is cls), "names": list(f.parameter_names), "defaults": np.asarray(f.parameter_values, dtype=float)}
+                            out.update(readback(f, opts))
+                            out.update(fit_signature(f, points=ppts, do_fit=fit_it))
+                        return out
+
+                    return build
+
+                cases.append(("Fit/%s/%s/%s" % (dname, given, oname), mk("Fit"), mk("class")))
+    return cases
+
+
+FAMILIES = {"sources": fam_sources, "constraints": fam_constraints, "wrappers": fam_wrappers, "wrapper-combos": fam_wrapper_combos, "models": fam_models, "yaml": fam_yaml, "sources-dtype": fam_sources_dtype, "dispatcher": fam_dispatcher}
 
 
 def jobs(tier, seed):
@@ -968,14 +1281,14 @@ def jobs(tier, seed):
     specs = []
     for vv in ([v] if tier == "quick" else [0, 1, 2]):
         for fam in FAMILIES:
-            nsh = {"sources": 3, "wrappers": 4, "wrapper-combos": 14}.get(fam, 2)
+            nsh = {"sources": 3, "wrappers": 4, "wrapper-combos": 14, "sources-dtype": 3, "dispatcher": 2}.get(fam, 2)
             for sh in range(nsh):
                 specs.append((fam, vv, sh, nsh))
     return specs
 
 
 def bound(tier, seed):
-    return "all pairs of the six families (source forms on xy/indexed fits with positive and mixed-sign data and on the x axis; simple / matrix constraint forms with values of either sign; xy_fit / indexed_fit / hist_fit / unbinned_fit keywords vs explicit construction incl. errors_rel_to_model both ways, limits, fixed, constraints, p0; COMBINATIONS of the control keywords of xy_fit / indexed_fit / hist_fit / unbinned_fit / custom_fit: none, each and every pair of {p0, dp0, limits containing p0, limits excluding p0 and active at the minimum, fixed with a value different from the p0 entry, fixed without a value, constraints (absolute + relative), profile} plus three larger combinations, the container forms of limits / fixed / constraints (bare entry, list, tuple of lists, one-sided limits), and every pair of uncertainty keywords of xy_fit (8), indexed_fit (4), hist_fit (4), each against the explicitly built fit (values, step sizes, limits, fix, constrain, fit) and against what the keyword asks for (fixed value, limits respected); library names and SymPy strings vs callables; YAML shorthand vs explicit YAML vs API); valuation(s) %s" % (
+    return "all pairs of the eight families (forms of a constant source {python scalar, numpy scalar, 0-d array, list, constant vector, diagonal covariance, scalar + rho vs covariance / correlation matrix + vector} x sizes {0.5, 2.5, valuation} and integer-valued / relative forms x data of dtype int (histogram counts, IndexedContainer, XYContainer both axes) and float controls on containers; a subset on HistFit / IndexedFit / XYFit, shared MultiFit sources and the hist_fit / indexed_fit / xy_fit keywords; kafe2.Fit vs the fit class for 6 data kinds x model given / omitted x the options of the fit type; source forms on xy/indexed fits with positive and mixed-sign data and on the x axis; simple / matrix constraint forms with values of either sign; xy_fit / indexed_fit / hist_fit / unbinned_fit keywords vs explicit construction incl. errors_rel_to_model both ways, limits, fixed, constraints, p0; COMBINATIONS of the control keywords of xy_fit / indexed_fit / hist_fit / unbinned_fit / custom_fit: none, each and every pair of {p0, dp0, limits containing p0, limits excluding p0 and active at the minimum, fixed with a value different from the p0 entry, fixed without a value, constraints (absolute + relative), profile} plus three larger combinations, the container forms of limits / fixed / constraints (bare entry, list, tuple of lists, one-sided limits), and every pair of uncertainty keywords of xy_fit (8), indexed_fit (4), hist_fit (4), each against the explicitly built fit (values, step sizes, limits, fix, constrain, fit) and against what the keyword asks for (fixed value, limits respected); library names and SymPy strings vs callables; YAML shorthand vs explicit YAML vs API); valuation(s) %s" % (
         (seed % 3) if tier == "quick" else "0,1,2"
     )
 
